@@ -126,6 +126,12 @@ theorem aberration_eq_exp (p : PolarCoeffs ℝ) (α φ wavelength : ℝ) :
   rw [cexp_neg_eq_exp, guards_value_preserving, chi_eq_kirkland]
   rfl
 
+/-- Distribution-valued coefficients: the code multiplies member `i` of the ensemble by the distribution weight `wᵢ`
+(`array = weights * array`), so the modulus of a member is `|wᵢ|`, not 1 (unit weights for `from_values` without weights). -/
+theorem weighted_member_norm (w : ℝ) (p : PolarCoeffs ℝ) (α φ wavelength : ℝ) :
+    ‖(w : ℂ) * transfer p α φ wavelength‖ = |w| := by
+  rw [norm_mul, aberration_eq_exp, Complex.norm_exp_ofReal_mul_I, mul_one, Complex.norm_real, Real.norm_eq_abs]
+
 /-- A pure phase: the aberration function never changes the modulus. -/
 theorem aberration_norm_one (p : PolarCoeffs ℝ) (α φ wavelength : ℝ) : ‖transfer p α φ wavelength‖ = 1 := by
   rw [aberration_eq_exp, Complex.norm_exp_ofReal_mul_I]
@@ -185,8 +191,9 @@ theorem aliases_bijective_onto_symbols :
       ∧ symbolKeys.Perm PolarCoeffs.fieldNames := by
   refine ⟨by decide, by decide, by decide, by decide⟩
 
-/-- The alias table is the documented one (abTEM documentation, "Contrast transfer function": defocus/Cs/C5, astigmatism…,
-coma…, trefoil…, quadrafoil…, pentafoil, hexafoil with their `_angle` companions). -/
+/-- Change detector: the generated alias table equals this literal (the names of the abTEM documentation: defocus/Cs/C5,
+astigmatism…, coma…, trefoil…, quadrafoil…, pentafoil, hexafoil with their `_angle` companions).  The *independent* statement of the
+documented table lives in harness/c21.py (`ALIASES_DOC`) and is compared with the real `polar_aliases` on every run. -/
 theorem alias_table_is_documented :
     polarAliases = [("defocus", "C10"), ("Cs", "C30"), ("C5", "C50"), ("astigmatism", "C12"), ("astigmatism_angle", "phi12"),
       ("astigmatism3", "C32"), ("astigmatism3_angle", "phi32"), ("astigmatism5", "C52"), ("astigmatism5_angle", "phi52"),
